@@ -10,12 +10,14 @@ mod consts_gen;
 mod eng_addr;
 mod eng_codec;
 mod eng_mach;
+mod eng_gh;
 mod eng_map;
 mod eng_rec;
 mod eng_pte;
 mod eng_tbl;
 mod gen_addr;
 mod gen_mach;
+mod gen_gh;
 mod gen_map;
 mod gen_rec;
 mod gen_tbl;
@@ -49,6 +51,7 @@ fn main() {
                 "map" => eng_map::run,
                 "tree" => eng_map::run_projected,
                 "rec" => eng_rec::run,
+                "gh" => eng_gh::run,
                 _ => panic!("unknown engine"),
             };
             for_each_line(|l| fmt_out(&f(&parse_line(l))));
@@ -66,6 +69,7 @@ fn main() {
                 "C11" | "C16" | "C17" | "C18" => gen_mach::gen(prop, seed, thorough, &mut out),
                 "C01" | "C02" | "C09" | "C10" => gen_map::gen(prop, seed, thorough, &mut out),
                 "C20" => gen_rec::gen(seed, thorough, &mut out),
+                "C13" => gen_gh::gen(seed, thorough, &mut out),
                 _ => panic!("unknown property"),
             }
         }
@@ -78,6 +82,7 @@ fn main() {
                 "C01" | "C02" | "C09" | "C10" => gen_map::oracle(prop),
                 "C11T" => gen_map::oracle("C11"),
                 "C20" => gen_rec::oracle(),
+                "C13" => gen_gh::oracle(),
                 _ => panic!("unknown property"),
             }
         }
